@@ -65,7 +65,7 @@ def build_harness(outdir, race=False):
     if race:
         cmd.insert(2, "-race")
     if os.environ.get("VERIF_COVER") == "1":   # tools/code_coverage.sh: which library code the conformance runs execute
-        cmd[2:2] = ["-cover", "-coverpkg=github.com/go-kid/ioc/..."]
+        cmd[2:2] = ["-cover", "-coverpkg=all"]
     cmd.append(".")
     t0 = time.time()
     p = subprocess.run(cmd, cwd=work, env=env, stdout=subprocess.PIPE, stderr=subprocess.STDOUT, text=True)
